@@ -280,3 +280,21 @@ def register(M):
         if k > len(b):
             raise PathEnd('panic', 'split_at out of bounds')
         return Adt('(&str, &str)', {(None, 0): Ref(Cell(mklit(b[:k].decode('utf-8'))), ()), (None, 1): Ref(Cell(mklit(b[k:].decode('utf-8'))), ())})
+
+    @reg('str::rsplit_once', '<impl>::rsplit_once', 'str::split_once', '<impl>::split_once')
+    def _(ex, info, a, dty):
+        ls = lit(str_of(ex, a[0]))
+        pat = ex.materialize(a[1])
+        if isinstance(pat, Ref):
+            pat = str_of(ex, pat)
+        if z3.is_expr(pat) and z3.is_bv_value(z3.simplify(pat)):
+            sep = chr(z3.simplify(pat).as_long())
+        else:
+            sep = lit(pat)
+        if ls is None or sep is None:
+            return M.uninterpreted(ex, info, a, dty)
+        parts = ls.rsplit(sep, 1) if info['method'] == 'rsplit_once' else ls.split(sep, 1)
+        if len(parts) != 2:
+            return Adt(dty or 'Option<(&str, &str)>', {}, 0, None)
+        tup = Adt('(&str, &str)', {(None, 0): Ref(Cell(mklit(parts[0])), ()), (None, 1): Ref(Cell(mklit(parts[1])), ())})
+        return Adt(dty or 'Option<(&str, &str)>', {(1, 0): tup}, 1, None)
